@@ -5,3 +5,8 @@ from pyvc.native import run_native
 @bounded(props=["C20"], kind="enum", bound="5 corpus containers x truncation lengths x single-byte corruptions of the first 400 bytes", quick=True)
 def c20_truncations(tier, seed):
     return run_native("c20_truncations.py", [tier, seed])
+
+
+@bounded(props=["C20"], kind="enum", bound="24 hostile <variable-font> name/filename attributes through `fonttools varLib --output-dir`", quick=True)
+def c20_outputs(tier, seed):
+    return run_native("c20_outputs.py", [tier, seed])
